@@ -1,6 +1,7 @@
 package main
 
 import (
+	"syscall"
 	"sync"
 	"net/http/httptest"
 	"net/http"
@@ -133,6 +134,32 @@ func alterWare(c *Ctx, stored []byte, mut string, other []byte) []byte {
 				return append(hs, h), append(bs, body)
 			}
 			return append([]*tar.Header{hs[0], h}, hs[1:]...), append([][]byte{bs[0], body}, bs[1:]...)
+		}))
+	case "renamebs": // an entry renamed so that its name gains a prefix ending in a backslash (an ordinary byte): another fileset
+		return gz(retar(raw, func(hs []*tar.Header, bs [][]byte) ([]*tar.Header, [][]byte) {
+			for k := range hs {
+				j := (k + arg(1)) % len(hs)
+				nm := strings.TrimSuffix(hs[j].Name, "/")
+				if i := strings.LastIndex(nm, "/"); nm != "." && nm != "" && (hs[j].Typeflag == tar.TypeReg || hs[j].Typeflag == tar.TypeDir) {
+					hs[j].Name = nm[:i+1] + "l\\" + nm[i+1:]
+					if hs[j].Typeflag == tar.TypeDir {
+						// children keep their old parent name: only leaf directories are renamed
+						leaf := true
+						for _, o := range hs {
+							if strings.HasPrefix(o.Name, nm+"/") && o != hs[j] {
+								leaf = false
+							}
+						}
+						if !leaf {
+							hs[j].Name = nm + "/"
+							continue
+						}
+						hs[j].Name += "/"
+					}
+					return hs, bs
+				}
+			}
+			return hs, bs
 		}))
 	case "twomember", "twomember-same":
 		// a two-member gzip (RFC 1952: the stream is the concatenation): member 1 = the original entries without the
@@ -358,6 +385,20 @@ func fetchExec(c *Ctx, op string) {
 			c.PropFail("filtered-id-accepted", fmt.Sprintf("a ware whose unfiltered hash is %s was accepted as %s (the id of its filtered image) under an altering filter", id.Hash, id3.Hash), op)
 		}
 		c.H("filtered-id-request")
+	}
+	// ---- the same request again (same altering filter, same cache): the same answer (C12: the id reported is the id of
+	// what is materialised, whichever branch of the cache protocol served it)
+	if ufStr != losslessUnpackStr && mut == "none" && pan3 == "" && err3 == nil && mode != "direct" {
+		id8, err8, pan8 := safeCall(func() (api.WareID, error) {
+			return tartrans.Unpack(ctx, id, filepath.Join(base, "dst-again"), uf, rio.PlacementMode(mode), []api.WarehouseLocation{whAddr(whKind, whDir)}, rio.Monitor{})
+		})
+		if mode == "mount" {
+			syscall.Unmount(filepath.Join(base, "dst-again"), 0)
+		}
+		if r8 := resTok(id8, err8, pan8); r8 != resTok(id3, nil, "") {
+			c.PropFail("filter-attr", fmt.Sprintf("the same unpack (filter %s, placement %s) answered %s the first time and %s the second", ufStr, mode, resTok(id3, nil, ""), r8), op)
+		}
+		c.H("altering-twice")
 	}
 	// ---- a ware id is not a path: with W on its shelf, "W/<a directory of W>" (and friends) names a piece of that shelf;
 	// nothing was fetched or verified under that name, so no placement mode may answer it
@@ -647,7 +688,7 @@ func fetchEngine(c *Ctx) {
 			fetchOverlap(c, fmt.Sprintf("fetch-overlap %s %s", fm, w))
 		}
 	}
-	muts := []string{"none", "recompress", "plain", "pad:2", "reorder", "flip", "flip", "flip", "trunc", "trunc", "truncgz", "substitute", "dropentry", "addentry", "addabs", "addabs", "addlink", "twomember", "twomember-same", "adddir", "modattr", "modattr", "modattr-ns", "modcontent"}
+	muts := []string{"none", "recompress", "plain", "pad:2", "reorder", "flip", "flip", "flip", "trunc", "trunc", "truncgz", "substitute", "dropentry", "addentry", "addabs", "addabs", "renamebs", "renamebs", "addlink", "twomember", "twomember-same", "adddir", "modattr", "modattr", "modattr-ns", "modcontent"}
 	modes := []string{"direct", "copy", "none", "mount"}
 	for k := 0; k < n; k++ {
 		fsx := c.GenFileset(GenOpts{MaxEntries: 7, Kinds: "fffdLp", SubSecond: false, BigIds: false, Setid: false, MaxContent: 1500})
@@ -671,6 +712,8 @@ func fetchEngine(c *Ctx) {
 				mut = fmt.Sprintf("addlink:%d", c.Intn(50))
 			case "addabs":
 				mut = fmt.Sprintf("addabs:%d:%d", c.Intn(3), c.Intn(2))
+			case "renamebs":
+				mut = fmt.Sprintf("renamebs:%d", c.Intn(20))
 			}
 			mode := modes[c.Intn(4)]
 			if m == "modattr-ns" && k < 2 {
